@@ -12,10 +12,11 @@ chk = importlib.util.module_from_spec(spec); spec.loader.exec_module(chk)
 from checks_registry import CHECKS
 done = set()
 for pid, c in sorted(CHECKS.items()):
-    key = (c["pkg"], c.get("race", False))
-    if key in done:
-        continue
-    done.add(key)
-    out, sites, s = chk.build(c["pkg"], race=c.get("race", False))
-    print("built %s (%.1fs, jitter call sites redirected: %d)" % (out, s, sites))
+    for part in (c.get("parts") or [dict(pkg=c["pkg"])]):
+        key = (part["pkg"], c.get("race", False))
+        if key in done:
+            continue
+        done.add(key)
+        out, sites, s = chk.build(part["pkg"], race=c.get("race", False))
+        print("built %s (%.1fs, jitter call sites redirected: %d)" % (out, s, sites))
 PY
